@@ -153,6 +153,13 @@ def check(repo: Repo, rep: Report) -> None:
                 got_ = [u(a) for a in n_.args]
                 rep.ob("Y11-timer-dispatch", f_, f"{f_.qual}: `{short(n_, 70)}` -> {callee.name}({', '.join(callee.params)})", got_ == want and not n_.keywords,
                        f"{f_.qual} calls {callee.name} with {got_} where its parameters are {want}: the due time and the period are exchanged")
+    # the first due time of timer(d, p) comes from the due-time argument on both branches of its type dispatch
+    tdp = repo.fn(O + "timer.py", "observable_timer_duetime_and_period.subscribe")
+    dname = repo.fn(O + "timer.py", "observable_timer_duetime_and_period").params[0]
+    inits_ = [n_ for n_ in tdp.direct_nodes() if isinstance(n_, (ast.Assign, ast.AnnAssign)) and n_.value is not None and u(n_.targets[0] if isinstance(n_, ast.Assign) else n_.target) in (tdp.child("action").nonlocals if tdp.child("action") else ())
+              and not isinstance(n_.value, ast.Constant)]
+    rep.ob("Y11-timer-dispatch", tdp, f"first due time computed from `{dname}` in every branch ({[short(n_, 40) for n_ in inits_]})", bool(inits_) and all(any(isinstance(y, ast.Name) and y.id == dname for y in ast.walk(n_.value)) for n_ in inits_),
+           "timer(duetime, period): the first due time is not derived from the due-time argument on some branch (e.g. the period is used)")
     rep.rule("Y7-no-shortcut", "a primitive source factory has one result: the observable built from its subscribe function (no argument-dependent early return)", floor=9)
     for rel_, q_ in (("range.py", "range_"), ("fromiterable.py", "from_iterable_"), ("generate.py", "generate_"), ("generatewithrelativetime.py", "generate_with_relative_time_"),
                      ("returnvalue.py", "return_value_"), ("returnvalue.py", "from_callable_"), ("empty.py", "empty_"), ("throw.py", "throw_"), ("never.py", "never_"),
